@@ -8,6 +8,7 @@
 #include <algorithm>
 #include <array>
 #include <cmath>
+#include <cstdlib>
 #include <cstdio>
 #include <memory>
 #include <string>
@@ -31,7 +32,7 @@ namespace verif
 {
 char const* const kPropertyId = "C13";
 char const* const kHarness = "c13_rng";
-size_t const kMaxBytes = 72;
+size_t const kMaxBytes = 48;  // longest decoder path (discard, dense state, log-uniform n) uses 41
 char const* const kRule
     = "byte string -> (kind; 160-bit state: dense / one-hot / all-ones / "
       "single word / low weight, Weyl value; skip count n or subsequence "
@@ -833,7 +834,7 @@ bool run_exhaustive(ExhaustiveResult& r)
           "n in [0, 4096] against literal drawing; (b) factorisation of "
           "2^160-1 certified (Miller-Rabin + 160-bit product), T^(2^160-1) == "
           "I and T^((2^160-1)/p) != I for its 12 prime factors p; (c) "
-          "GenerateCanonical32<float> on all 2^32 generator outputs, "
+          "GenerateCanonical32<float> on all 2^32 generator outputs (thorough tier; quick tier: both ends 2^22 each + stride 1021), "
           "GenerateCanonical32<double> on all pairs of 85 extreme outputs";
     auto fail = [&r](std::string m) {
         r.violated = true;
@@ -1114,8 +1115,19 @@ bool run_exhaustive(ExhaustiveResult& r)
         uint64_t n_one = 0, n_bad_other = 0, n_far = 0, n_nonmono = 0;
         uint32_t first_one = 0, first_other = 0, first_far = 0;
         float prev = -1.0f, maxbelow = 0.0f;
-        for (uint64_t x = 0; x < (uint64_t(1) << 32); ++x)
+        // quick tier: both ends (2^22 outputs each) and a stride through the
+        // middle; thorough tier: all 2^32 outputs
+        char const* tier = std::getenv("VERIF_TIER");
+        bool const quick = tier && std::string(tier) == "quick";
+        uint64_t const end_block = uint64_t(1) << 22;
+        uint64_t scanned = 0;
+        for (uint64_t x = 0; x < (uint64_t(1) << 32);
+             x += (quick && x >= end_block
+                   && x < (uint64_t(1) << 32) - end_block)
+                      ? 1021
+                      : 1)
         {
+            ++scanned;
             cg.x = uint32_t(x);
             float f = canon(cg);
             if (!(f >= 0.0f && f < 1.0f))
@@ -1141,8 +1153,8 @@ bool run_exhaustive(ExhaustiveResult& r)
                 ++n_nonmono;
             prev = f;
         }
-        r.evaluations += long(uint64_t(1) << 32);
-        r.nontrivial += long((uint64_t(1) << 32) - 1);
+        r.evaluations += long(scanned);
+        r.nontrivial += long(scanned - 1);
         if (n_bad_other)
             return fail("GenerateCanonical32<float> outside [0,1) for "
                         + std::to_string(n_bad_other)
@@ -1171,7 +1183,10 @@ bool run_exhaustive(ExhaustiveResult& r)
                           double(maxbelow));
             r.known.emplace_back(kF2, b);
         }
-        r.samples.push_back("float canonical over all 2^32 outputs: "
+        r.samples.push_back(std::string("float canonical over ")
+                            + (quick ? "both ends (2^22 each) + stride 1021 of"
+                                     : "all")
+                            + " 2^32 generator outputs: "
                             + std::to_string(n_one) + " give 1.0f");
     }
     return true;
